@@ -16,7 +16,9 @@
 (*   "nrm"   max / one / infinity / Frobenius norms of general, symmetric,    *)
 (*           trapezoidal, symmetric band, tridiagonal and symmetric           *)
 (*           tridiagonal integer matrices whose sum of squares is a perfect   *)
-(*           square (Dlange, Dlansy, Dlantr, Dlansb, Dlangt, Dlanst).         *)
+(*           square (Dlange, Dlansy, Dlantr, Dlansb, Dlangt, Dlanst; also     *)
+(*           Hessenberg, general band and triangular band: Dlanhs, Dlangb,    *)
+(*           Dlantb).                                                         *)
 (* Fam selects one family or a group ("xb": the families with block-size      *)
 (* dependent code, "xn": the others).  The uniqueness / definition lemmas are *)
 (* in PlantedXLemmas.tla.                                                     *)
@@ -417,8 +419,25 @@ NrmInst(m, n, v) ==
       sb == NrmItem("sb", TRUE, FALSE, kd, k, k, LAMBDA i, j : Abs(i - j) <= kd, F, TRUE, last(k, k), corner(k, k), 175 + v)
       gt == NrmItem("gt", TRUE, FALSE, 1, k, k, LAMBDA i, j : Abs(i - j) <= 1, F, FALSE, last(k, k), corner(k, k), 176 + v)
       st == NrmItem("st", TRUE, FALSE, 1, k, k, LAMBDA i, j : Abs(i - j) <= 1, F, TRUE, last(k, k), corner(k, k), 177 + v)
+      \* upper Hessenberg (Dlanhs), general band with kl = kd sub- and ku super-diagonals (Dlangb),
+      \* triangular band with kd off-diagonals (Dlantb)
+      ku == IF n = 0 THEN 0 ELSE H(m, n, 178 + v) % n
+      diag1 == IF k > 1 THEN <<1, 1>> ELSE None2
+      hs == NrmItem("hs", TRUE, FALSE, 1, k, k, LAMBDA i, j : j >= i - 1, F, FALSE, last(k, k), corner(k, k), 179 + v)
+      gb == [ku |-> ku] @@ NrmItem("gb", TRUE, FALSE, kd, m, n, LAMBDA i, j : j - i <= ku /\ i - j <= kd, F, FALSE,
+                                   diag1, corner(m, n), 180 + v)
+      tb(up, unit) ==
+        NrmItem("tb", up, unit, kd, k, k,
+                LAMBDA i, j : IF up THEN j >= i /\ j - i <= kd ELSE j <= i /\ i - j <= kd,
+                LAMBDA i, j : unit /\ i = j, FALSE,
+                IF ~unit THEN diag1
+                ELSE IF kd >= 1 /\ k >= 3 THEN (IF up THEN <<1, 2>> ELSE <<2, 1>>) ELSE None2,
+                IF ~unit THEN corner(k, k)
+                ELSE IF kd >= 1 /\ k >= 2 THEN (IF up THEN <<0, 1>> ELSE <<1, 0>>) ELSE None2,
+                181 + v)
   IN [fam |-> "nrm", m |-> m, n |-> n, v |-> v, den |-> 1,
-      items |-> <<ge, sy, tr(TRUE, FALSE), tr(TRUE, TRUE), tr(FALSE, FALSE), tr(FALSE, TRUE), sb, gt, st>>,
+      items |-> <<ge, sy, tr(TRUE, FALSE), tr(TRUE, TRUE), tr(FALSE, FALSE), tr(FALSE, TRUE), sb, gt, st,
+                  hs, gb, tb(TRUE, FALSE), tb(TRUE, TRUE), tb(FALSE, FALSE), tb(FALSE, TRUE)>>,
       tol |-> 0]
 NrmCases == {[f |-> "nrm", m |-> s[1], n |-> s[2], v |-> v, w |-> 0] : s \in Shapes2, v \in {0, 1}}
 
